@@ -757,7 +757,7 @@ def parser(literal_string, simple_ident, all_columns=None, sqlserver=False):
         use_schema = assign("use", identifier)
         open_cursor = assign("open", identifier)
         close_cursor = assign("close", identifier)
-        fetch_cursor = assign("fetch", identifier) + INTO + delimited_list(ident)
+        fetch_cursor = assign("fetch", identifier) + INTO + delimited_list(ident)("into")
         cache_options = Optional((
             keyword("options").suppress()
             + LB
